@@ -77,7 +77,7 @@ impl Property for C14 {
         let neps = 1 + rng.usize(4);
         let mut kinds = Vec::new();
         for k in 0..neps {
-            let kind = rng.below(19);
+            let kind = rng.below(20);
             h.u64(kind);
             kinds.push(kind);
             let aw = |rng: &mut Rng, awaits: &mut Vec<String>, name: String| {
@@ -86,6 +86,23 @@ impl Property for C14 {
                 }
             };
             match kind {
+                19 => {
+                    // a third kind of resource (a directory iterator, whose entries are composite effect
+                    // results): kept and closed / left open by its opener, or handed to a reader
+                    let mode = rng.below(3);
+                    h.u64(mode);
+                    lines.push(format!("fd{k} = [\"/dir{k}/x\" .0, 577, 420] __file_open__"));
+                    match mode {
+                        0 => lines.push(format!("dr{k} = @#{{ d = \"/dir{k}\" .0 __directory_read__, e = [d __directory_next__], c = d __directory_close__, 1 }}")),
+                        1 => lines.push(format!("dr{k} = @#{{ d = \"/dir{k}\" .0 __directory_read__, e = [d __directory_next__], 1 }}")),
+                        _ => {
+                            lines.push(format!("rd{k} = @#{{ x = !#\\Dir, e = [x __directory_next__], 1 }}"));
+                            lines.push(format!("dr{k} = &rd{k} @#(@\\Dir) {{ =kp, d = \"/dir{k}\" .0 __directory_read__, d kp, y = [d __directory_next__], 0 }}"));
+                            aw(rng, &mut awaits, format!("rd{k}"));
+                        }
+                    }
+                    aw(rng, &mut awaits, format!("dr{k}"));
+                }
                 18 => {
                     // a handle sent to a process that has finished and has already been awaited; then it is
                     // awaited again: that report comes after the transfer
@@ -398,13 +415,15 @@ fn resources_in(v: &Value, depth: u8, out: &mut Vec<(usize, u8)>) {
 /// which is part of what is being checked).
 fn rid_of(e: &NativeEffect) -> Option<quiver_core::value::ResourceId> {
     match e {
-        NativeEffect::FileOpen { .. } | NativeEffect::DnsResolve { .. } => None,
+        NativeEffect::FileOpen { .. } | NativeEffect::DnsResolve { .. } | NativeEffect::ReadDirOpen { .. } | NativeEffect::Stat { .. } => None,
         NativeEffect::FileRead { resource_id, .. }
         | NativeEffect::FileWrite { resource_id, .. }
         | NativeEffect::FileFlush { resource_id }
         | NativeEffect::FileClose { resource_id }
         | NativeEffect::DnsNext { resource_id }
-        | NativeEffect::DnsClose { resource_id } => Some(*resource_id),
+        | NativeEffect::DnsClose { resource_id }
+        | NativeEffect::ReadDirNext { resource_id }
+        | NativeEffect::ReadDirClose { resource_id } => Some(*resource_id),
         other => other.resource_id(),
     }
 }
@@ -416,7 +435,9 @@ fn op_matches(op: &BackendOp, e: &NativeEffect) -> bool {
         (BackendOp::Write { rid, .. }, NativeEffect::FileWrite { resource_id, .. }) => rid == resource_id,
         (BackendOp::Flush { rid }, NativeEffect::FileFlush { resource_id }) => rid == resource_id,
         (BackendOp::Close { rid }, NativeEffect::FileClose { resource_id }) => rid == resource_id,
-        (BackendOp::Open { .. }, NativeEffect::DnsResolve { .. }) => true,
+        (BackendOp::Open { .. }, NativeEffect::DnsResolve { .. } | NativeEffect::ReadDirOpen { .. }) => true,
+        (BackendOp::Read { rid }, NativeEffect::ReadDirNext { resource_id }) => rid == resource_id,
+        (BackendOp::Close { rid }, NativeEffect::ReadDirClose { resource_id }) => rid == resource_id,
         (BackendOp::Read { rid }, NativeEffect::DnsNext { resource_id }) => rid == resource_id,
         (BackendOp::Close { rid }, NativeEffect::DnsClose { resource_id }) => rid == resource_id,
         (BackendOp::Other, _) => true,
@@ -571,7 +592,7 @@ impl Monitor for ResMonitor {
                     }
                 }
                 Event::EffectRequest { process_id, effect } => {
-                    if matches!(effect, NativeEffect::DnsResolve { .. } | NativeEffect::DnsNext { .. } | NativeEffect::DnsClose { .. }) {
+                    if matches!(effect, NativeEffect::DnsResolve { .. } | NativeEffect::DnsNext { .. } | NativeEffect::DnsClose { .. } | NativeEffect::ReadDirOpen { .. } | NativeEffect::ReadDirNext { .. } | NativeEffect::ReadDirClose { .. }) {
                         self.probe("second_resource_kind_used");
                     }
                     let rid = rid_of(effect);
